@@ -35,7 +35,9 @@ INSERT = ["<x y z>", "<", "</x", "(v", "<a", "a>b <", "%foo x", "%define", "%def
           "% define a b", "k $nope", "k ${x", "k $", "%define d $", "%define d ${nope}",
           "nosuchkey v", "nosuchkey", "1x v", "<nosuchtype/>", "<nosuchtype n>", "</nosuchtype>",
           "%include nosuchfile.conf", "%import no.such.package", "%define zd $nope", "%define ZD ${x",
-          "%define Zd a$", "k $(x", "k $( HOME)", "k a$(/etc", "%define zd $(", "%include $(x", "k $(ZCV_NO_SUCH_ENV_VARIABLE)"]
+          "%define Zd a$", "k $(x", "k $( HOME)", "k a$(/etc", "%define zd $(", "%include $(x", "k $(ZCV_NO_SUCH_ENV_VARIABLE)",
+          # headers with nothing, or only delimiters, between the angle brackets
+          "<>", "</>", "< >", "<//>", "< />", "</ >", "<>>", "<<>"]
 BADVALUES = ["abc", "65536", "-1", "5tb", "5x", "1a", "a b", "maybe", "host:99999", "1.2.3", "",
              "x" * 300, "9" * 257 + "z", "q " * 2000]
 
